@@ -152,6 +152,63 @@ def run_one(mod, case, timeout_s=None):
         return mod.run_case(case)
 
 
+def run_isolated(mod, case):
+    """run one case in a forked child so that no module-level state of the library (caches, mutable default arguments,
+    class attributes, global RNG state) can leak from one run into the next: one seed = one repeatable execution.
+    Properties whose runs manage their own helper processes set ISOLATE = False."""
+    if not getattr(mod, "ISOLATE", True):
+        return run_one(mod, case)
+    import pickle
+    import select
+
+    r, w = os.pipe()
+    pid = os.fork()
+    if pid == 0:  # child
+        code = 0
+        try:
+            os.close(r)
+            try:
+                payload = ("ok", run_one(mod, case))
+            except HarnessError as e:
+                payload = ("harness", repr(e))
+            except BaseException as e:  # noqa
+                payload = ("crash", "".join(traceback.format_exception(type(e), e, e.__traceback__))[-1500:])
+            with os.fdopen(w, "wb") as f:
+                pickle.dump(payload, f)
+        except BaseException:
+            code = 1
+        finally:
+            os._exit(code)
+    os.close(w)
+    limit = getattr(mod, "RUN_TIMEOUT_S", 120) + 60
+    buf = b""
+    t0 = time.time()
+    with os.fdopen(r, "rb") as f:
+        while True:
+            left = limit - (time.time() - t0)
+            if left <= 0:
+                try:
+                    os.kill(pid, signal.SIGKILL)
+                except OSError:
+                    pass
+                os.waitpid(pid, 0)
+                raise HarnessTimeout(f"isolated run exceeded {limit}s")
+            ready, _, _ = select.select([f], [], [], min(left, 5))
+            if ready:
+                chunk = f.read()
+                buf += chunk
+                break
+    os.waitpid(pid, 0)
+    if not buf:
+        raise HarnessError("isolated run died without a result")
+    kind, val = pickle.loads(buf)
+    if kind == "ok":
+        return val
+    if kind == "harness":
+        raise HarnessError(val)
+    raise RuntimeError(val)
+
+
 # ----------------------------------------------------------------------------------------------- batch runner
 def _worker(args):
     pid, verif_seed, tier, indices, keep_samples = args
@@ -163,7 +220,7 @@ def _worker(args):
         case = None
         try:
             case = mod.gen_case(run_seed, tier)
-            res = run_one(mod, case)
+            res = run_isolated(mod, case)
         except HarnessError as e:
             out.append({"i": i, "run_seed": run_seed, "harness_error": repr(e) + " case=" + canon(case)[:1500]})
             continue
@@ -271,7 +328,7 @@ def shrink(mod, case, want_inv, budget_s=90, max_evals=3000):
         nonlocal evals
         evals += 1
         try:
-            r = run_one(mod, c)
+            r = run_isolated(mod, c)
         except Exception:
             return False
         return same_failure(r, want_inv)
